@@ -230,10 +230,16 @@ pub fn ref_valid(col: &ColDef, v: &V) -> Verdict {
             if !col.enums.is_empty() && !col.enums.iter().any(|e| e == s) {
                 return Verdict::Invalid;
             }
-            match col.category {
+            let v = match col.category {
                 Some(c) => category_verdict(c, s),
                 None => Verdict::Valid,
+            };
+            // the empty string and null are the file format's single value: whether "" is acceptable in a
+            // NON-nullable string column is not settled by the documentation (either answer accepted)
+            if v == Verdict::Valid && s.is_empty() && !col.nullable {
+                return Verdict::Unspecified;
             }
+            v
         }
     }
 }
